@@ -4,7 +4,8 @@ C18 — property theorems, part 2: `<cstring>` / `<cwchar>` (part 1, character c
 For every allocation, offset and count satisfying the C preconditions — written as the decidable
 predicates `Spec.Terminated`, `Spec.ReadableN` and a room inequality, the same ones the generator
 of `checks/props/c18.py` uses — the model returns `.ok` (no read or write outside an allocation,
-no fuel exhaustion: the memory-safety face, C02) of exactly the ISO C result.  For the writers the
+no fuel exhaustion: the memory-safety face, C02) of exactly the ISO C result (pointer results: the model returns the absolute index, the spec the
+offset from the pointer argument).  For the writers the
 *whole* destination allocation equals `Spec.splice …`: every unit outside the extent C defines is
 unchanged.
 -/
@@ -251,6 +252,28 @@ theorem strstr_eq (h : Buf) (p : Nat) (n : Buf) (q : Nat) (hh : Spec.Terminated 
     rw [strstrOuter_spec h n q hn hne (h.drop p) p (h.length + 1) rfl hh (drop_length_lt h p)]
     rfl
 
+
+/-! ## footprint
+
+Every theorem above holds in particular for the *exact-size* allocations: a source that ends with its
+terminator (or has exactly `n` units), a destination of exactly the extent C defines.  Since all
+accesses of the model are checked, `.ok` on such an allocation means that nothing outside the source
+string / count and nothing outside the destination extent is touched.  Spelled out for `strlen`: -/
+
+/-- footprint of a source string: the call succeeds, with the same result, on the allocation cut right
+    after the terminator — so nothing beyond the terminator is ever read (reads are checked). -/
+theorem strlen_footprint (b : Buf) (p : Nat) (h : Spec.Terminated b p) :
+    strlen (b.take (p + Spec.strlen b p + 1)) p = .ok (Spec.strlen b p) := by
+  have hd : (b.take (p + Spec.strlen b p + 1)).drop p = (b.drop p).take (Spec.strlen b p + 1) := by
+    rw [List.drop_take]; congr 1; omega
+  obtain ⟨h1, h2⟩ := takeWhile_take_of_mem (b.drop p) (Spec.strlen b p + 1) h (by simp [Spec.strlen, Spec.cstr])
+  have ht : Spec.Terminated (b.take (p + Spec.strlen b p + 1)) p := by
+    unfold Spec.Terminated; rw [hd]; exact h2
+  rw [strlen_eq _ p ht]
+  congr 1
+  show ((List.drop p (b.take (p + Spec.strlen b p + 1))).takeWhile (· ≠ 0)).length = _
+  rw [hd, h1]
+  rfl
 
 /-! ## non-vacuity: the hypotheses hold on ordinary inputs (tests on samples, not proofs of anything general) -/
 
